@@ -66,7 +66,7 @@ class Counted(collections.abc.Coroutine):
         return self
 
 
-HISTORIES = ("std", "dir", "reoffer", "abort", "abortclose", "gone", "badfp", "stopped", "stopearly", "sctpinject")
+HISTORIES = ("std", "dir", "reoffer", "abort", "abortclose", "gone", "badfp", "stopped", "stopearly", "sctpinject", "latestun")
 INJECTS = ("shutdown", "shutdownack", "shutdowncomplete", "abort", "error", "heartbeat", "reconfig")
 
 
@@ -83,6 +83,8 @@ def script(cfg):
       badfp      the answer carries a wrong DTLS fingerprint: the offerer's transport fails with remote tracks present
       stopped    both applications stop their first transceiver after the pair is connected
       stopearly  the offerer stops its first transceiver while ICE / DTLS are still to connect, then the pair connects
+      latestun   after ICE completed, an authenticated STUN binding request reaches peer 1 from an address that was never
+                 signalled (a fresh UDP socket): aioice learns a peer-reflexive candidate and starts a triggered check
       sctpinject the remote SCTP stack does something aiortc's own never does: through its real SCTP transport it sends
                  `cfg["inj"]` (SHUTDOWN, SHUTDOWN ACK, SHUTDOWN COMPLETE, ABORT, ERROR, HEARTBEAT, a RE-CONFIG resetting all
                  streams) at stage `cfg["stage"]` (`open`: channels open on both sides; `early`: as soon as the injector's own
@@ -129,6 +131,8 @@ def script(cfg):
         calls += [[0, "onCloseAddDc", None], [1, "close", None]]
     elif h == "gone":
         calls += [[1, "killSockets", None]] + (after or [[0, "add", "dc"]])
+    elif h == "latestun":
+        calls += [[1, "stunProbe", None], [1, "yield", cfg.get("steps", 0)]]
     elif h == "stopearly":
         calls.append([0, "nop", None])
     elif h == "stopped":
@@ -157,7 +161,7 @@ def all_calls(cfg):
     seen = {}
     out = []
     for c in script(cfg):
-        if c[1] in ("settle", "settleAny", "waitClosed", "onCloseAddDc", "killSockets", "sctpStop", "setDir", "waitOpen", "waitAssoc"):
+        if c[1] in ("settle", "settleAny", "waitClosed", "onCloseAddDc", "killSockets", "sctpStop", "setDir", "waitOpen", "waitAssoc", "stunProbe"):
             continue
         key = (c[0], opname(c))
         out.append([c[0], opname(c), seen.get(key, 0)])
@@ -214,6 +218,40 @@ class Session:
             raise RuntimeError("unknown injection " + kind)
         await send(ch)
 
+    async def stun_probe(self, pc, other):
+        """a STUN binding request with the right credentials from a socket nobody signalled (public API only: the gatherer's
+        local parameters / candidates; aioice.stun builds the message)"""
+        import random
+        import socket
+
+        from aioice import stun
+        trs = pc.getTransceivers()
+        otrs = other.getTransceivers()
+        ice = (pc.sctp.transport if pc.sctp is not None else trs[0].receiver.transport).transport
+        oice = (other.sctp.transport if other.sctp is not None else otrs[0].receiver.transport).transport
+        mine, theirs = ice.iceGatherer.getLocalParameters(), oice.iceGatherer.getLocalParameters()
+        target = next(c for c in ice.iceGatherer.getLocalCandidates() if c.type == "host" and ":" not in c.ip)
+        sock = socket.socket(socket.AF_INET, socket.SOCK_DGRAM)
+        sock.setblocking(False)
+        try:
+            sock.bind((target.ip, 0))
+            req = stun.Message(message_method=stun.Method.BINDING, message_class=stun.Class.REQUEST)
+            req.attributes["USERNAME"] = "%s:%s" % (mine.usernameFragment, theirs.usernameFragment)
+            req.attributes["PRIORITY"] = 1845501695
+            req.attributes["ICE-CONTROLLING" if ice.role == "controlled" else "ICE-CONTROLLED"] = random.getrandbits(64)
+            req.add_message_integrity(mine.password.encode("utf8"))
+            sock.sendto(bytes(req), (target.ip, target.port))
+            # wait until the connection has answered (and, with that, started its triggered check)
+            t0 = time.monotonic()
+            while time.monotonic() - t0 < 1.5:
+                try:
+                    sock.recvfrom(2048)
+                    break
+                except BlockingIOError:
+                    await asyncio.sleep(0.005)
+        finally:
+            sock.close()
+
     def consume(self, p, track):
         """what an application does with a received track: a consumer blocked in `await track.recv()` (a MediaBlackhole);
         it has to be released when the connection closes"""
@@ -263,6 +301,8 @@ class Session:
                 await asyncio.sleep(0.002)
         elif op == "inject":
             await self.inject(pc, arg)
+        elif op == "stunProbe":
+            await self.stun_probe(pc, other)
         elif op == "setDir":
             pc.getTransceivers()[0].direction = arg
         elif op == "setRemoteBadFp":
